@@ -96,20 +96,20 @@ PROPERTIES = {
         'technique': TECH,
     },
     'C06': {
-        'units': [ef.PadBunchProfiles, ef.WakePotential, ef.ElectricFieldScale],
+        'units': [ef.PadBunchProfiles, ef.WakePotential, ef.ElectricFieldScale, ef.ElectricFieldCtor, ef.ElectricFieldCtor11, ef.InitWakeLossFFT],
         'native_sweep': {'harness': 'ef_replay', 'runs': ef.EF_RUNS + [['wake', 16, '1', 0, n_, 7] for n_ in (32, 33, 34, 50, 97, 128)]},
         'lemmas': [],
         'level': 'proof',
-        'claim': 'wakePotential = scale * IDFT_herm( Z[i]*DFT(train)[i] for i < n/2, zero from n/2 ) read back at bucket*spacing + x, where the train holds every bunch profile at '
+        'claim': 'both ElectricField constructors establish the class invariant the methods rely on (transform buffers of the impedance length, zero-initialised, FFT plans bound to exactly those buffers, per-bunch tables); wakePotential = scale * IDFT_herm( Z[i]*DFT(train)[i] for i < n/2, zero from n/2 ) read back at bucket*spacing + x, where the train holds every bunch profile at '
                  'bucket*spacing and zeros elsewhere; FFTW represented by its contract (uninterpreted DFT/IDFT of the buffer contents); unbounded in lengths, patterns, spacing',
         'assumptions': [A_IDEAL, A_LIB, DROPS, 'A-FFTW-R2C: r2c writes DFT(in)[0..n/2]', 'A-FFTW-C2R: c2r returns the Hermitian inverse transform of in[0..n/2] and may overwrite in[0..n/2) only',
                         'complex multiplication kept symbolic (same products in code and spec); the scale factor Ib*dt*c/(sigma_z*dE)/N is the constructor contract (C05)'],
-        'uncovered': ['buffer allocation and FFT plan binding in the ElectricField constructors (class invariant EF_valid is assumed by the methods)', 'padded length computed in main is proved under C17'],
+        'uncovered': ['padded length computed in main is proved under C17'],
         'explanation': 'functional posts with ghost indices on padBunchProfiles and wakePotential',
         'technique': TECH,
     },
     'C18': {
-        'units': [ef.PadBunchProfiles, ef.WakePotential, ef.UpdateCSR],
+        'units': [ef.PadBunchProfiles, ef.WakePotential, ef.UpdateCSR, ef.ElectricFieldCtor, ef.ElectricFieldCtor11, ef.InitWakeLossFFT],
         'native_sweep': {'harness': 'ef_replay', 'runs': ef.EF_RUNS + [['wake', 16, '11', 16, n_, 8] for n_ in (34, 38, 42, 46, 50, 54, 58, 62, 66, 70)]},
         'lemmas': [],
         'level': 'other',
@@ -177,7 +177,7 @@ PROPERTIES = {
     'C17': {
         'units': SM_KICK + SM_FP + [sm.IdentityApply, sm.KickMapApplyTo, sm.FokkerPlanckApplyTo,
                                     ps.RulerCtor, ps.SimpsonWeights, ps.UpdateXProjection, ps.UpdateYProjection, ps.Integrate, ps.Normalize, ps.Average, ps.Variance, ps.Swap, ps.MakePSFromTXTLoop, ps.PhaseSpaceCtor, ps.PhaseSpaceCtor8, ps.PhaseSpaceCtor12, ps.PhaseSpaceCopyCtor,
-                                    ef.PadBunchProfiles, ef.WakePotential, ef.UpdateCSR,
+                                    ef.PadBunchProfiles, ef.WakePotential, ef.UpdateCSR, ef.ElectricFieldCtor, ef.ElectricFieldCtor11, ef.InitWakeLossFFT,
                                     mainspec.MainConfig] + Z_UNITS,
         'leaves': [leaf.UpperPow2Leaf, leaf.FPApplyToLeaf, leaf.KickApplyToLeaf, leaf.PSxLeaf],
         'lemmas': [],
@@ -212,7 +212,7 @@ PROPERTIES = {
                  'damping/diffusion, projection — in this order for every output cadence; the wake kick offsets are scale*IDFT(Z*DFT(profile)) read back per bunch; RF and drift laws; unit-variance diffusion moments; dt and revolution part. '
                  'The derivation from these facts to ln rho + q^2/2 - (1/dtheta) int W = const is in lemmas/C05.md and is not machine-checked',
         'assumptions': [A_IDEAL, A_LIB, DROPS, 'event contracts of the control skeleton abstract each callee by an uninterpreted function of the locations its verified contract reads'],
-        'uncovered': ['ElectricField class invariants (buffer sizes, plans) are assumed at the call in WakePotentialMap::update; only the scale-factor initialisers of its constructors are under contract', 'the equilibrium statement itself'],
+        'uncovered': ['the equilibrium statement itself'],
         'explanation': 'control skeleton of main + contracts of the force-law units',
         'technique': TECH,
     },
